@@ -133,6 +133,7 @@ pub fn generate(tier: &str, rng: &mut Rng) -> Vec<String> {
         let l = rng.below(50) as u128 * 1_000_000;
         out.push(format!("run {} {} {}", opt_tok(c), opt_tok(s), l));
     }
+    out.extend(gen_e2e(tier, rng));
     out
 }
 
@@ -166,6 +167,10 @@ pub fn execute(case: &str) -> String {
                 Ok(None) => "absent".into(),
                 Err(()) => "ignored".into(),
             }
+        }
+        ["e2e", c, s, e, l] => {
+            let p = |x: &str| -> Option<u128> { if x == "none" { None } else { Some(x.parse().unwrap()) } };
+            e2e_case(p(c), p(s), p(e), l.parse().unwrap())
         }
         ["run", c, s, l] => {
             let c: Option<u128> = if *c == "none" { None } else { Some(c.parse().unwrap()) };
@@ -209,4 +214,159 @@ fn run_case(c: Option<u128>, s: Option<u128>, latency: u128) -> String {
             }
         }
     })
+}
+
+// ===== end to end: the real transport stack on both sides =====
+//   e2e <caller ns|none> <Server::timeout ns|none> <Endpoint::timeout ns|none> <handler latency ns>
+// A real `transport::Server` (with `.timeout`) and a real `Channel` (with `Endpoint::timeout`) over an
+// in-memory duplex, virtual time; the caller's deadline travels as grpc-timeout.
+
+#[derive(Clone)]
+struct SleepSvc(u128);
+
+impl tonic::server::NamedService for SleepSvc {
+    const NAME: &'static str = "verif.Sleep";
+}
+
+struct SleepUnary(u128);
+impl tonic::server::UnaryService<Vec<u8>> for SleepUnary {
+    type Response = Vec<u8>;
+    type Future = std::pin::Pin<Box<dyn std::future::Future<Output = Result<tonic::Response<Vec<u8>>, tonic::Status>> + Send>>;
+    fn call(&mut self, _r: tonic::Request<Vec<u8>>) -> Self::Future {
+        let l = self.0;
+        Box::pin(async move {
+            tokio::time::sleep(dur(l)).await;
+            Ok(tonic::Response::new(vec![7]))
+        })
+    }
+}
+
+impl tower::Service<http::Request<tonic::body::Body>> for SleepSvc {
+    type Response = http::Response<tonic::body::Body>;
+    type Error = std::convert::Infallible;
+    type Future = std::pin::Pin<Box<dyn std::future::Future<Output = Result<Self::Response, Self::Error>> + Send>>;
+    fn poll_ready(&mut self, _cx: &mut std::task::Context<'_>) -> std::task::Poll<Result<(), Self::Error>> {
+        std::task::Poll::Ready(Ok(()))
+    }
+    fn call(&mut self, req: http::Request<tonic::body::Body>) -> Self::Future {
+        let l = self.0;
+        Box::pin(async move {
+            let mut grpc = tonic::server::Grpc::new(crate::c03::RawCodec);
+            Ok(grpc.unary(SleepUnary(l), req).await)
+        })
+    }
+}
+
+struct DuplexConn(tokio::io::DuplexStream);
+impl tonic::transport::server::Connected for DuplexConn {
+    type ConnectInfo = ();
+    fn connect_info(&self) {}
+}
+impl tokio::io::AsyncRead for DuplexConn {
+    fn poll_read(mut self: std::pin::Pin<&mut Self>, cx: &mut std::task::Context<'_>, buf: &mut tokio::io::ReadBuf<'_>) -> std::task::Poll<std::io::Result<()>> {
+        std::pin::Pin::new(&mut self.0).poll_read(cx, buf)
+    }
+}
+impl tokio::io::AsyncWrite for DuplexConn {
+    fn poll_write(mut self: std::pin::Pin<&mut Self>, cx: &mut std::task::Context<'_>, buf: &[u8]) -> std::task::Poll<std::io::Result<usize>> {
+        std::pin::Pin::new(&mut self.0).poll_write(cx, buf)
+    }
+    fn poll_flush(mut self: std::pin::Pin<&mut Self>, cx: &mut std::task::Context<'_>) -> std::task::Poll<std::io::Result<()>> {
+        std::pin::Pin::new(&mut self.0).poll_flush(cx)
+    }
+    fn poll_shutdown(mut self: std::pin::Pin<&mut Self>, cx: &mut std::task::Context<'_>) -> std::task::Poll<std::io::Result<()>> {
+        std::pin::Pin::new(&mut self.0).poll_shutdown(cx)
+    }
+}
+
+fn e2e_case(c: Option<u128>, s: Option<u128>, e: Option<u128>, latency: u128) -> String {
+    let rt = paused_rt();
+    rt.block_on(async move {
+        let (cli, srv) = tokio::io::duplex(64 * 1024);
+        let mut builder = tonic::transport::Server::builder();
+        if let Some(s) = s {
+            builder = builder.timeout(dur(s));
+        }
+        let router = builder.add_service(SleepSvc(latency));
+        // one connection, then the listener stays open (an ended `incoming` starts a shutdown)
+        let incoming = {
+            use tokio_stream::StreamExt;
+            tokio_stream::iter(vec![Ok::<_, std::io::Error>(DuplexConn(srv))]).chain(tokio_stream::pending())
+        };
+        let (stop_tx, stop_rx) = tokio::sync::oneshot::channel::<()>();
+        let server = tokio::spawn(async move {
+            let _ = router
+                .serve_with_incoming_shutdown(incoming, async move {
+                    let _ = stop_rx.await;
+                })
+                .await;
+        });
+        let mut ep = tonic::transport::Endpoint::from_static("http://[::]:50051");
+        if let Some(e) = e {
+            ep = ep.timeout(dur(e));
+        }
+        let mut cli = Some(cli);
+        let channel = match ep
+            .connect_with_connector(tower::service_fn(move |_: http::Uri| {
+                let c = cli.take();
+                async move { c.map(hyper_util::rt::TokioIo::new).ok_or_else(|| std::io::Error::other("used")) }
+            }))
+            .await
+        {
+            Ok(ch) => ch,
+            Err(_) => return "connect-failed".to_string(),
+        };
+        let mut grpc = tonic::client::Grpc::new(channel);
+        let mut req = tonic::Request::new(vec![1u8]);
+        if let Some(c) = c {
+            req.set_timeout(dur(c));
+        }
+        let fut = async {
+            if grpc.ready().await.is_err() {
+                return "not-ready".to_string();
+            }
+            match grpc.unary(req, "/verif.Sleep/Unary".parse().unwrap(), crate::c03::RawCodec).await {
+                Ok(_) => "inner".to_string(),
+                Err(st) => format!("timeout {} {}", st.code() as i32, hex(st.message().as_bytes())),
+            }
+        };
+        let out = match tokio::time::timeout(Duration::from_secs(1_000_000), fut).await {
+            Ok(o) => o,
+            Err(_) => "hang".to_string(),
+        };
+        let _ = stop_tx.send(());
+        drop(grpc);
+        let _ = tokio::time::timeout(Duration::from_secs(10), server).await;
+        out
+    })
+}
+
+pub fn gen_e2e(tier: &str, rng: &mut Rng) -> Vec<String> {
+    let mut out = Vec::new();
+    let ms = 1_000_000u128;
+    let grid: Vec<Option<u128>> = vec![None, Some(20 * ms), Some(50 * ms), Some(1000 * ms)];
+    for c in &grid {
+        for s in &grid {
+            for e in &grid {
+                let mut lats: Vec<u128> = vec![0, 5 * ms, 5_000 * ms];
+                for t in [c, s, e].into_iter().flatten() {
+                    // strictly inside / outside each deadline (the instant itself is a scheduling race)
+                    lats.push(*t - 3 * ms);
+                    lats.push(*t + 3 * ms);
+                }
+                lats.sort();
+                lats.dedup();
+                for l in lats {
+                    // skip latencies within 2 ms of any present deadline
+                    if [c, s, e].into_iter().flatten().any(|t| (*t as i128 - l as i128).abs() < 2 * ms as i128) {
+                        continue;
+                    }
+                    if tier == "thorough" || rng.chance(1, 2) {
+                        out.push(format!("e2e {} {} {} {}", opt_tok(*c), opt_tok(*s), opt_tok(*e), l));
+                    }
+                }
+            }
+        }
+    }
+    out
 }
